@@ -582,7 +582,7 @@ class Interp:
                 return False
             if isinstance(n, ast.Call):
                 f = n.func
-                if isinstance(f, ast.Name) and f.id in ("bool", "int", "len", "isinstance", "bytes", "float", "old", "abs"):
+                if isinstance(f, ast.Name) and f.id in ("bool", "int", "len", "isinstance", "bytes", "float", "old", "abs", "getattr", "hasattr"):
                     continue
                 if isinstance(f, ast.Attribute) and f.attr in ("get", "hex", "tobytes", "startswith", "get_property", "keys", "get_from_value", "list"):
                     continue
@@ -726,7 +726,11 @@ class Interp:
         out = []
         for e in elts:
             if isinstance(e, ast.Starred):
-                out.extend(self.iterate(self.ev(e.value, fr)))
+                sv = self.resolve(self.ev(e.value, fr))
+                if isinstance(sv, VRef) and self.hobj(sv).kind == "list":
+                    out.extend(self.hobj(sv).items)      # conditionally present elements stay conditional
+                else:
+                    out.extend(self.iterate(sv))
             else:
                 out.append(self.ev(e, fr))
         return out
@@ -850,7 +854,14 @@ class Interp:
 
     def ev_SetComp(self, node, fr):
         out = []
-        self._comp(node.generators, 0, fr, lambda f: out.append(self.ev(node.elt, f)))
+
+        def emit(f):
+            if isinstance(f, _GuardFrame):
+                if self.path.branch(f.cond, "setcomp_if"):
+                    out.append(self.ev(node.elt, f.frame))
+                return
+            out.append(self.ev(node.elt, f))
+        self._comp(node.generators, 0, fr, emit)
         return self.new_set(out)
 
     def ev_DictComp(self, node, fr):
@@ -873,7 +884,13 @@ class Interp:
                     triples.append((kv, m, vv))
                 return self.B.new_symdict(self, triples)
         d = self.new_dict()
-        self._comp(node.generators, 0, fr, lambda f: self.dict_set(d, self.ev(node.key, f), self.ev(node.value, f)))
+        def emit_kv(f):
+            if isinstance(f, _GuardFrame):
+                if not self.path.branch(f.cond, "dictcomp_if"):
+                    return
+                f = f.frame
+            self.dict_set(d, self.ev(node.key, f), self.ev(node.value, f))
+        self._comp(node.generators, 0, fr, emit_kv)
         return d
 
     def _comp(self, gens, k, fr, emit):
@@ -905,8 +922,32 @@ class Interp:
                     del self.path.pc[saved:]
                 emit(_GuardFrame(f2, p))
             return
+        last = k == len(gens) - 1
         for x in self.iterate(it, node=g):
             self.assign(g.target, x, f2)
+            if last and g.ifs and all(self.pure_expr(c, f2) for c in g.ifs):
+                # side-effect free filters: the element is present under the conjunction of the conditions (no fork per element)
+                guard = None
+                dead = False
+                for c in g.ifs:
+                    try:
+                        t = ops.truth(self, self.ev(c, f2) if guard is None else self._under(guard, c, f2))
+                    except _InfeasibleBranch:
+                        dead = True
+                        break
+                    if t.c is False:
+                        dead = True
+                        break
+                    if t.c is None:
+                        guard = t.t if guard is None else z3.And(guard, t.t)
+                if dead or (guard is not None and not self.path.feasible(guard)):
+                    continue
+                if guard is None or self.path.known(guard):
+                    self._comp(gens, k + 1, f2, emit)
+                else:
+                    f3 = Frame(f2.module, locals=dict(f2.locals), parent=f2.parent, cls=f2.cls, func=f2.func)
+                    emit(_GuardFrame(f3, guard))
+                continue
             if all(self.cond(self.ev(c, f2), "compif") for c in g.ifs):
                 self._comp(gens, k + 1, f2, emit)
 
